@@ -197,9 +197,10 @@ func VerifC18_pickup() {
 // gosym: mode=bv fp=uf
 func VerifC18_pickup_args() {
 	sorted, shuffled := c18Priorities(vParam("n", 3))
+	shuffledCopy := append([]uint{}, shuffled...)
 	n := len(sorted)
 	seen := 0
-	chk := func(combinations [][]uint, d divider.Divider, quantity uint) bool {
+	chkCombos := func(combinations [][]uint, d divider.Divider) {
 		seen++
 		vAssert(len(combinations) == (1<<n)-1, "all 2^n-1 combinations are passed")
 		// every combination is a non-empty strictly descending sub-list of the sorted priorities, all different
@@ -233,12 +234,34 @@ func VerifC18_pickup_args() {
 		m := map[uint]uint{}
 		d([]uint{sorted[0]}, 5, m)
 		vAssert(m[sorted[0]] == 5, "the caller's divider is passed through")
+	}
+	chk := func(combinations [][]uint, d divider.Divider, quantity uint) bool {
+		chkCombos(combinations, d)
+		return false
+	}
+	chkS := func(combinations [][]uint, priorities []uint, d divider.Divider, quantity uint, limit float64) bool {
+		chkCombos(combinations, d)
+		vAssert(len(priorities) == n, "the sorted priorities are passed to the suitability test")
+		for i := range priorities {
+			if i < n {
+				vAssert(priorities[i] == sorted[i], "the priorities passed to the suitability test are the sorted copy")
+			}
+		}
+		vAssert(limit == 12.5, "the caller's limit is passed through")
 		return false
 	}
 	vReplace("isNonFatalConfig", chk)
+	vReplace("isSuitableConfig", chkS)
 	IsNonFatalConfig(shuffled, divider.Fair, 1)
 	PickUpMinNonFatalQuantity(shuffled, divider.Fair, 1)
 	PickUpMaxNonFatalQuantity(shuffled, divider.Fair, 1)
-	vAssert(seen == 3, "predicate evaluated once per call here")
+	IsSuitableConfig(shuffled, divider.Fair, 1, 12.5)
+	PickUpMinSuitableQuantity(shuffled, divider.Fair, 1, 12.5)
+	PickUpMaxSuitableQuantity(shuffled, divider.Fair, 1, 12.5)
+	vAssert(seen == 6, "predicate evaluated once per call here")
+	// the caller's slice is never reordered
+	for i := range shuffled {
+		vAssert(shuffled[i] == shuffledCopy[i], "the helpers do not modify the caller's priority slice")
+	}
 	vReach("end")
 }
